@@ -56,6 +56,7 @@ theorem Inv.finished {P : Program} (hP : P.WF) {s s' : St} {k : Key} {r' : Res}
     (h8 : s'.pending = (s.pending.filter (fun p => p.1 != k)) ++
       (((s.task k).discs.map (fun d => (d, P.out d s.env []))).filter (fun p => !(isDone s p.1) && p.1 != k)))
     (h9 : s'.target = s.target) (h10 : s'.started = s.started) (h11 : s'.validSeen = s.validSeen)
+    (h12 : s'.registered = s.registered) (h13 : s'.sigAt = s.sigAt)
     (hs : s.status k = .computing) (hts : (s.task k).started = true) (htc : (s.task k).completed = true)
     (hrv : r'.value = (s.mem.res k).value) (hrc : r'.computedAt = (s.mem.res k).computedAt)
     (hrb : r'.builtAt = s.epoch)
@@ -206,7 +207,7 @@ theorem Inv.finished {P : Program} (hP : P.WF) {s s' : St} {k : Key} {r' : Res}
   · intro x hbx hfl
     by_cases e : x = k
     · subst e
-      refine ⟨newGood s'.mem mk mseqk mdisck menvk, ?_⟩
+      refine ⟨fun _ => newGood s'.mem mk mseqk mdisck menvk, ?_⟩
       constructor
       · intro q v hq hk; rw [mseqk] at hq; left
         obtain ⟨_, b, c⟩ := kin q v hq hk
@@ -219,8 +220,9 @@ theorem Inv.finished {P : Program} (hP : P.WF) {s s' : St} {k : Key} {r' : Res}
     · rw [hfo x e] at hfl; rw [mo x e] at hbx
       obtain ⟨g, f⟩ := hi.good x hbx hfl
       constructor
-      · exact GoodRec.frame (σ := s.mem) (mseqo x e) (mdisco x e) (menvo x e) (by rw [mo x e])
-          (by intro y hy; rw [mo x e]; exact hy) g
+      · intro hso; rw [mo x e] at hso
+        exact GoodRec.frame (σ := s.mem) (mseqo x e) (mdisco x e) (menvo x e) (by rw [mo x e])
+          (by intro y hy; rw [mo x e]; exact hy) (g hso)
       · apply FreshRec.mono2 (σ := s.mem) (mseqo x e) (mdisco x e) (by rw [mo x e]; exact Nat.le_refl _) _ _ _ f
         · intro q v _ _; left; rw [mval, mcomp]; exact ⟨rfl, Nat.le_refl _⟩
         · intro d v _; left; rw [mval, mcomp]; exact ⟨rfl, Nat.le_refl _⟩
@@ -233,7 +235,7 @@ theorem Inv.finished {P : Program} (hP : P.WF) {s s' : St} {k : Key} {r' : Res}
   · intro x hbx
     by_cases e : x = k
     · subst e
-      refine ⟨newGood s'.db dbk dseqk ddisck denvk, ?_⟩
+      refine ⟨fun _ => newGood s'.db dbk dseqk ddisck denvk, ?_⟩
       constructor
       · intro q v hq hk; rw [dseqk] at hq; left
         obtain ⟨a, b, c⟩ := kin q v hq hk
@@ -247,8 +249,9 @@ theorem Inv.finished {P : Program} (hP : P.WF) {s s' : St} {k : Key} {r' : Res}
       obtain ⟨g, f⟩ := hi.dbGood x hbx
       have cr := hi.dbCross x hbx
       constructor
-      · exact GoodRec.frame (σ := s.db) (dseqo x e) (ddisco x e) (denvo x e) (by rw [dbo x e])
-          (by intro y hy; rw [dbo x e]; exact hy) g
+      · intro hso; rw [dbo x e] at hso
+        exact GoodRec.frame (σ := s.db) (dseqo x e) (ddisco x e) (denvo x e) (by rw [dbo x e])
+          (by intro y hy; rw [dbo x e]; exact hy) (g hso)
       · constructor
         · intro q v hq hk
           rw [dseqo x e] at hq; rw [dbo x e]
@@ -354,12 +357,18 @@ theorem Inv.finished {P : Program} (hP : P.WF) {s s' : St} {k : Key} {r' : Res}
     rw [hst'] at hx
     by_cases e : x = k
     · simp [e] at hx
-    · simp [e] at hx; rw [h11] at hvx; rw [h1, mo x e]; exact hi.validOk x hx hvx
+    · simp [e] at hx; rw [h11] at hvx; rw [h1, mo x e, h13]; exact hi.validOk x hx hvx
   · intro ht x hx
     rw [h9] at ht; rw [h11]
     rw [hst'] at hx
     by_cases e : x = k
     · simp [e] at hx
     · simp [e] at hx; exact hi.validIdle ht x hx
+  · rw [h12, h13]; exact hi.sigAtOk
+  · intro x hx
+    rw [h12]; rw [hst'] at hx
+    by_cases e : x = k
+    · simp [e] at hx
+    · simp [e] at hx; exact hi.scanReg x hx
 
 end LLBuild.Engine
